@@ -148,7 +148,12 @@ func (c *c07) Summary(w *sim.World) (string, []string) {
 func genC07(t *rapid.T) *sim.GenSpec {
 	start := rapid.SampledFrom([]uint64{0, 0, 1, 1<<32 - 1, 1 << 32, 1 << 63, 1<<64 - 100, 1<<64 - 3, 1<<64 - 1,
 		1<<7 - 1, 1 << 7, 1 << 14, 1 << 21, 1 << 28, 1 << 35, 1<<42 - 2, 1 << 42, 1<<45 + 99, 1<<49 - 2, 1 << 49, 1 << 56}).Draw(t, "start")
-	return sim.DrawGenesis(t, sim.GenOpts{StartNonce: &start, NoPause: true})
+	gs := sim.DrawGenesis(t, sim.GenOpts{StartNonce: &start, NoPause: true})
+	if rapid.IntRange(0, 5).Draw(t, "limit-without-amount") == 0 {
+		// a burn-limit entry for another denom whose amount the file leaves out: everything else in the file counts
+		gs.Limits = append([]sim.LimitSpec{{Denom: "uforgotten", Amount: sim.AbsentAmount}}, gs.Limits...)
+	}
+	return gs
 }
 
 func nextC07(g *sim.G, i int) *sim.Op {
